@@ -31,7 +31,8 @@ ASSUMPTIONS = [
     "'a failed call is executed again' is checked for calls whose own task function raised; a job that fails because a child "
     "failed is legitimately re-derived from its cached single reduction, and an error handled by an enclosing `catch` is "
     "legitimately replayed through catch's own documented cache of the recovery expression",
-    "threads are joined under the job that forked them (otherwise the forking ancestor has legitimately finished)",
+    "a job that forked a thread and returned it has legitimately concluded (DONE) although the thread fails later: the FAILED "
+    "chain is then required from the raising job up to that forking job, and at the root",
     "programs as in C01, error leaves at every depth; two consecutive executions on one in-memory backend under the "
     "controlled executor with a seeded completion order; plus failing sub-workflows run through subrun(e, new_execution=b) "
     "twice on one file backend with real thread executors (execution counter: the raising leaves' own call log)",
@@ -234,6 +235,9 @@ def check_failed_rows(ctx, G, name, sx, k, outcome, rows, done, log):
         cur, good = jid, True
         while cur is not None:
             r = rows.get(cur)
+            if r is not None and r[1] in ("DONE", "CACHED") and (r[3] or "").startswith(FORKERS):
+                break       # the job that forked the thread has legitimately concluded (see ASSUMPTIONS); the error travels on
+                            # through join_thread, and the root (checked above) is failed
             if r is None or r[1] != "FAILED" or r[2] != outcome:
                 good = False
                 worst = (cur, r and r[1:])
@@ -261,6 +265,7 @@ def flush_lookups(ctx, pending):
     del pending[:]
 
 
+FORKERS = ("ev.fork_", "ev.forker")
 STALE = "C12-stale-completion-event-crashes-next-execution"
 SUBRUN_REPLAY = "C12-failure-under-extended-subrun-replayed-from-cache"
 
